@@ -74,7 +74,7 @@ def run():
         "samples": [samples[k] for k in sorted(samples)][:6],
         "exhaustive": False,
         "explanation": ("thorough: all SF x BW x CR x LDRO x 6 prior TxModulation bytes; packet parameters 11 preambles x header/CRC/IQ "
-                        "x all 256 payload lengths; all 65536 sync words; every 100 Hz of the LoRaWAN bands + 10 kHz stride 137-1020 MHz; "
+                        "x all 256 payload lengths; all 65536 sync words; every 100 Hz of the LoRaWAN bands on the SX1262 (both drivers), every 1 kHz on SX1261/SX1276/SX1272, + 10 kHz stride 137-1020 MHz; "
                         "all power requests x 4 TxClamp priors x 4 SX126x variants / 2 SX127x chips x both PA paths; symbol timeouts 0..1100 "
                         "+ stride; random prior register files for every SX127x case" if thorough else
                         "quick: all SF x BW x CR x LDRO x 2 priors; 6 preambles x flags x 12 payload lengths; 456 sync words; LoRaWAN channel "
